@@ -549,7 +549,9 @@ class List(Sequence):
         prune = self.prune_empty
 
         for key, value in pairs:
-            if value == "" and prune:
+            if key is None or (value == "" and prune):
+                # a bare index key handed down by an enclosing list is not
+                # addressed to any member of this one
                 continue
             m = regex.match(key)
             if not m:
@@ -659,7 +661,7 @@ class Array(Sequence):
                 re.UNICODE,
             )
             for key, value in pairs:
-                m = regex.match(key)
+                m = regex.match(key) if key is not None else None
                 if not m:
                     continue
                 remainder = key[m.end() :] or None
@@ -840,6 +842,9 @@ class Mapping(Container, dict):
         return converted
 
     def _set_flat(self, pairs, sep):
+        # a bare index key handed down by an enclosing list has no meaning
+        # for a mapping: there is no flat representation of mappings.
+        pairs = [pair for pair in pairs if pair[0] is not None]
         if self.name is None:
             possibles = pairs  # accept all
         else:
